@@ -39,6 +39,7 @@ import (
 
 	"github.com/hyperjumptech/grule-rule-engine/ast"
 	"github.com/hyperjumptech/grule-rule-engine/builder"
+	"github.com/hyperjumptech/grule-rule-engine/engine"
 	"github.com/hyperjumptech/grule-rule-engine/pkg"
 )
 
@@ -54,7 +55,7 @@ type C12Scenario struct {
 	Version string      `json:"version"`
 	Eng     EngScenario `json:"eng"`
 	Facts   []*Fact     `json:"facts"`
-	Remove  []string    `json:"remove,omitempty"` // rules removed from the library before storing (known-finding region D8)
+	Remove  []string    `json:"remove,omitempty"` // rules removed from the library (RemoveRuleEntry) before storing
 }
 
 // ---- generation ----
@@ -233,6 +234,20 @@ func genC12(p *prng, i int) C12Scenario {
 			f.M["a"], f.M["b"] = int64(p.intn(2)), int64(p.intn(3))
 		}
 		s.Facts = append(s.Facts, f)
+	}
+	// some knowledge bases have rules removed at library level before they are stored
+	if len(rules) >= 2 && p.chance(2, 5) {
+		k := p.intn(len(rules))
+		s.Remove = append(s.Remove, rules[k].Name)
+		if len(rules) >= 3 && p.chance(1, 3) {
+			s.Remove = append(s.Remove, rules[(k+1)%len(rules)].Name)
+		}
+	}
+	// a description that needs escapes in GRL (quotes, backslash, newline): the stream carries it unquoted
+	if kind == "tiny" && p.chance(1, 2) {
+		r := rules[0]
+		r.Desc = "say \"hi\" \\ and\nnext line"
+		r.Raw = strings.Replace(r.grl(), "\""+r.Desc+"\"", "\"say \\\"hi\\\" \\\\ and\\nnext line\"", 1)
 	}
 	return s
 }
@@ -444,7 +459,82 @@ func runInstance(lib *ast.KnowledgeLibrary, s C12Scenario, f *Fact) (string, err
 	return normObs(obs), nil
 }
 
+// active and removed rule names of a knowledge base (blueprint)
+func ruleSets(kb *ast.KnowledgeBase) (active, removed []string) {
+	for _, e := range kb.RuleEntries {
+		if e.Deleted {
+			removed = append(removed, e.RuleName)
+		} else {
+			active = append(active, e.RuleName)
+		}
+	}
+	sort.Strings(active)
+	sort.Strings(removed)
+	return
+}
+
+// probes an instance: the rules FetchMatchingRules returns and the rules Execute evaluates / fires
+func probeInstance(lib *ast.KnowledgeLibrary, s C12Scenario, f *Fact) (fetched, touched []string, err error) {
+	kb, err := lib.NewKnowledgeBaseInstance(s.KBName, s.Version)
+	if err != nil {
+		return nil, nil, err
+	}
+	func() {
+		defer func() { recover() }()
+		dc := ast.NewDataContext()
+		dc.Add("F", f.clone())
+		dc.Add("N", s.Eng.N)
+		eng := &engine.GruleEngine{MaxCycle: 10}
+		if res, ferr := eng.FetchMatchingRules(dc, kb); ferr == nil {
+			for _, r := range res {
+				fetched = append(fetched, r.RuleName)
+			}
+		}
+	}()
+	sort.Strings(fetched)
+	kb2, err := lib.NewKnowledgeBaseInstance(s.KBName, s.Version)
+	if err != nil {
+		return nil, nil, err
+	}
+	seen := map[string]bool{}
+	for _, e := range runEngOn(kb2, s.Eng, f.clone(), false, nil).Events {
+		if e.Rule != "" {
+			seen[e.Rule] = true
+		}
+	}
+	for k := range seen {
+		touched = append(touched, k)
+	}
+	sort.Strings(touched)
+	return
+}
+
+// the name under which each rule of the scenario stands in the built knowledge base (a tombstone name
+// for a removed one; saliences are distinct), and the names flagged Deleted
+func actualNames(kb *ast.KnowledgeBase, s C12Scenario) (names map[string]string, deleted []string) {
+	names = map[string]string{}
+	for _, r := range s.Eng.Rules {
+		names[r.Name] = r.Name
+	}
+	for _, e := range kb.RuleEntries {
+		if !e.Deleted {
+			continue
+		}
+		deleted = append(deleted, e.RuleName)
+		for _, r := range s.Eng.Rules {
+			if int64(e.Salience) == r.Sal {
+				names[r.Name] = e.RuleName
+			}
+		}
+	}
+	sort.Strings(deleted)
+	return
+}
+
 type c12Result struct {
+	Names   map[string]string
+	Deleted []string
+	LoadDel []string // names flagged Deleted in load(store(kb))
 	Stream  []byte
 	Stream2 []byte
 	Writes  int
@@ -576,6 +666,50 @@ func runC12(s C12Scenario, p *prng, exhaustive bool) (res c12Result, err error) 
 	if len(res.Stream2) != len(b1) || w2.calls != w.calls {
 		res.Fail = fmt.Sprintf("the re-stored stream has %d bytes / %d writes, the first one %d / %d", len(res.Stream2), w2.calls, len(b1), w.calls)
 		return res, nil
+	}
+	res.Names, res.Deleted = actualNames(orig, s)
+	if len(res.Deleted) != len(s.Remove) {
+		res.Fail = fmt.Sprintf("RemoveRuleEntry of %v left %d entries flagged as removed", s.Remove, len(res.Deleted))
+		return res, nil
+	}
+	// same active rules, same removed rules - on the blueprints and as seen by Fetch and Execute on instances
+	act0, rem0 := ruleSets(orig)
+	_, res.LoadDel = ruleSets(kb2)
+	for gen, kb := range map[string]*ast.KnowledgeBase{"load(store(kb))": kb2, "load(store(load(store(kb))))": kb3} {
+		if act, rem := ruleSets(kb); strings.Join(act, ",") != strings.Join(act0, ",") || strings.Join(rem, ",") != strings.Join(rem0, ",") {
+			res.Fail = fmt.Sprintf("%s has active rules %v and removed rules %v, the stored knowledge base has active %v and removed %v", gen, act, rem, act0, rem0)
+			return res, nil
+		}
+	}
+	if len(rem0) > 0 {
+		isRem := map[string]bool{}
+		for _, n := range rem0 {
+			isRem[n] = true
+		}
+		f0 := s.Facts[0]
+		fe0, _, perr := probeInstance(lib, s, f0)
+		if perr != nil {
+			res.Fail = fmt.Sprintf("NewKnowledgeBaseInstance failed on the built knowledge base: %v", perr)
+			return res, nil
+		}
+		for gen, l := range map[string]*ast.KnowledgeLibrary{"the stored knowledge base": lib, "load(store(kb))": lib2, "load(store(load(store(kb))))": lib3} {
+			fe, to, perr := probeInstance(l, s, f0)
+			if perr != nil {
+				res.Fail = fmt.Sprintf("no instance can be made of %s: %v", gen, perr)
+				return res, nil
+			}
+			for _, n := range append(append([]string(nil), fe...), to...) {
+				if isRem[n] {
+					res.Fail = fmt.Sprintf("removed rule %s is fetched, evaluated or fired on an instance of %s", n, gen)
+					return res, nil
+				}
+			}
+			if strings.Join(fe, ",") != strings.Join(fe0, ",") {
+				res.Fail = fmt.Sprintf("FetchMatchingRules on an instance of %s returns %v, on the stored knowledge base %v", gen, fe, fe0)
+				return res, nil
+			}
+		}
+		res.Stats["knowledge bases with removed rules"]++
 	}
 	m0, wm0 := kbMeta(orig), wmDump(orig)
 	cat0 := orig.MakeCatalog()
@@ -763,10 +897,21 @@ func runC12(s C12Scenario, p *prng, exhaustive bool) (res c12Result, err error) 
 }
 
 // ---- Coq case ----
-func (s C12Scenario) gallinaCase(id int, stream []byte, writes int, cuts []int) string {
+func (s C12Scenario) gallinaCase(id int, stream []byte, writes int, cuts []int, names map[string]string, deleted, loadedDeleted []string) string {
 	var rules []string
 	for _, r := range s.Eng.Rules {
-		rules = append(rules, r.gallina())
+		rr := *r
+		if n, ok := names[r.Name]; ok {
+			rr.Name = n
+		}
+		rules = append(rules, rr.gallina())
+	}
+	var del, ldel []string
+	for _, d := range deleted {
+		del = append(del, gStr(d))
+	}
+	for _, d := range loadedDeleted {
+		ldel = append(ldel, gStr(d))
 	}
 	var cs []string
 	for _, c := range cuts {
@@ -782,8 +927,8 @@ func (s C12Scenario) gallinaCase(id int, stream []byte, writes int, cuts []int) 
 		pieces = append(pieces, "\""+h[:n]+"\"%string")
 		h = h[n:]
 	}
-	return fmt.Sprintf("{| cc_id := %d; cc_hex := %s; cc_name := %s; cc_version := %s;\n cc_rules := %s;\n cc_writes := %d%%N; cc_cuts := %s |}",
-		id, gList(pieces), gStr(s.KBName), gStr(s.Version), gList(rules), writes, gList(cs))
+	return fmt.Sprintf("{| cc_id := %d; cc_hex := %s; cc_name := %s; cc_version := %s;\n cc_rules := %s;\n cc_deleted := %s; cc_loaded_deleted := %s;\n cc_writes := %d%%N; cc_cuts := %s |}",
+		id, gList(pieces), gStr(s.KBName), gStr(s.Version), gList(rules), gList(del), gList(ldel), writes, gList(cs))
 }
 
 type c12CaseRec struct {
@@ -792,40 +937,20 @@ type c12CaseRec struct {
 	Bytes    int         `json:"bytes"`
 }
 
-// ---- known findings ----
-// A witness of a known finding is reported as an oracle failure carrying a key; ./check prints
-// KNOWN-FINDING for keys listed as open in known_findings.json (never written at run time) and
-// VIOLATION otherwise.  The generated stream stays outside these regions.
-const keyD8 = "D8-removed-rule-active-after-load"
-
-// D8: a rule removed from the library is stored without its Deleted flag and is active again after loading
-func c12RemovedRuleWitness() (C12Scenario, string) {
-	s := C12Scenario{Kind: "removed-rule", KBName: "KB", Version: "1", Remove: []string{"Gone"}}
+// ---- regression: removed rules (formerly known finding D8, repaired by engine commit 01c7ce8) ----
+// rules Keep and Gone, Gone removed at library level before the store; runs first on every check and
+// goes through every oracle like a generated scenario
+func c12RemovedRuleRegression() C12Scenario {
+	s := C12Scenario{Kind: "removed-rule regression", KBName: "KB", Version: "1", Remove: []string{"Gone"}}
 	s.Eng = EngScenario{MaxCycle: 10, CancelAt: -1, Listeners: 1, Rules: []*Rule{
 		{Name: "Keep", Desc: "stays", Sal: 1, When: mkBin("<", eVar(vPath("F", "I64")), cInt(2)), Then: []*Stmt{assign(vPath("F", "I64"), "+=", cInt(1))}},
 		{Name: "Gone", Desc: "removed before the store", Sal: 5, When: mkBin("==", eVar(vPath("F", "S")), cStr("a")), Then: []*Stmt{assign(vPath("F", "S"), "=", cStr("fired"))}}}}
 	f := genFact(newPrng(7))
 	f.I64, f.S = 0, "a"
-	s.Facts = []*Fact{f}
-	lib, err := s.build()
-	if err != nil {
-		return s, ""
-	}
-	w, err := storeKB(lib, s.KBName, s.Version, -1, false)
-	if err != nil {
-		return s, ""
-	}
-	lib2 := ast.NewKnowledgeLibrary()
-	kb2, err, _ := loadKB(lib2, w.buf.Bytes(), true)
-	if err != nil || kb2 == nil {
-		return s, ""
-	}
-	o1, e1 := runInstance(lib, s, f)
-	o2, e2 := runInstance(lib2, s, f)
-	if e1 != nil || e2 != nil || o1 == o2 {
-		return s, ""
-	}
-	return s, "a rule removed with RemoveRuleEntry before the store is active again in the loaded knowledge base (the Deleted flag is not part of the stream): " + firstDiff(o1, o2)
+	g := genFact(newPrng(8))
+	g.I64, g.S = 1, "b"
+	s.Facts = []*Fact{f, g}
+	return s
 }
 
 // the rule of the model-made stream (coq/proofs/CatalogProofs.v vec_rule)
@@ -883,8 +1008,13 @@ func runC12Prop(seed uint64, tier string, out string) error {
 	distinct := map[string]bool{}
 	exhLeft := nExh
 	coqBytes := 0
-	for i := 0; i < n; i++ {
-		s := genC12(p.fork(), i)
+	for i := -1; i < n; i++ {
+		var s C12Scenario
+		if i < 0 {
+			s = c12RemovedRuleRegression() // the regression scenario runs first
+		} else {
+			s = genC12(p.fork(), i)
+		}
 		// cheap size probe decides which streams are cut at every offset in quick
 		exhaustive := false
 		if exhLeft > 0 {
@@ -949,7 +1079,7 @@ func runC12Prop(seed uint64, tier string, out string) error {
 			if gen == 1 {
 				cs = nil
 			}
-			cases = append(cases, s.gallinaCase(id, stream, res.Writes, cs))
+			cases = append(cases, s.gallinaCase(id, stream, res.Writes, cs, res.Names, res.Deleted, res.LoadDel))
 		}
 		if i < 3 {
 			rep.sample(map[string]interface{}{"kind": s.Kind, "grl": s.Eng.grl(), "stream_bytes": len(res.Stream), "write_calls": res.Writes})
@@ -959,10 +1089,6 @@ func runC12Prop(seed uint64, tier string, out string) error {
 		rep.fail("C12 tie (model -> implementation): "+msg, C12Scenario{Kind: "model-vector", KBName: "ModelKB", Version: "7", Eng: EngScenario{Rules: []*Rule{modelVectorRule()}}})
 	} else {
 		rep.count("model-made stream accepted by the real loader")
-	}
-	// known finding D8 (removed rules): outside the generated region, replayed on its own
-	if ws, msg := c12RemovedRuleWitness(); msg != "" {
-		rep.failKey(keyD8, "C12: "+msg, ws)
 	}
 	rep.Cases = len(cases)
 	rep.DistinctNontrivial = len(distinct)
@@ -1077,12 +1203,6 @@ func replayC12(path string) (bool, string, error) {
 	fixScenarioFloats(&s)
 	if len(s.Facts) == 0 {
 		s.Facts = []*Fact{genFact(newPrng(1))}
-	}
-	if len(s.Remove) > 0 {
-		if _, msg := c12RemovedRuleWitness(); msg != "" {
-			return true, msg, nil
-		}
-		return false, "removed-rule witness does not reproduce", nil
 	}
 	for i := 0; i < 3; i++ {
 		res, err := runC12(s, newPrng(uint64(i+1)), true)
